@@ -16,6 +16,7 @@
     still exists (C13_finished_recreated_refuted). *)
 From Coq Require Import ZArith List Bool.
 From TM Require Import Node.AppCfg Node.AppCfgP.
+From TM Require Import Base.ShapeCanon.
 Import ListNotations.
 Open Scope Z_scope.
 
@@ -162,3 +163,10 @@ Example C13_nonvacuous :
   rget (running s') 0 = Some (0, 5) /\ rget (running s') 1 = Some (1, 3) /\ rget (running s') 2 = None /\
   rget (running s') 3 = Some (3, 4) /\ lget (cleanup s') (LInst 2) = Some (2, 2) /\ one_link s' = true.
 Proof. vm_compute. repeat split. eexists; split; reflexivity. Qed.
+
+(** the functions named by this property's anchors still have the statement skeleton the model was written from
+    (re-extracted from the Python AST on every run, harness/tables_shape.py + harness/shape_pins.json; kept last so that
+    a difference does not stop the theorems above from being checked) *)
+Theorem C13_source_shape : shapes_ok_C13 = true.
+Proof. vm_compute. reflexivity. Qed.
+Print Assumptions C13_source_shape.
